@@ -51,7 +51,7 @@ theorem readArgs_eq (s : St) (i : SvcIn) (b : Byte) (hs : s.state = .parseComman
 `s` on everything the function looks at -/
 theorem parseCommandArgs_got (D : Desc) (s : St) (i : SvcIn) (b : Byte) (hs : s.state = .parseCommandArgs) (hr : i.rd = some b) :
     ∃ t : St, t.buf = s.buf ∧ t.length = s.length ∧ t.cmd = s.cmd ∧ t.cmdType = s.cmdType ∧ t.state = s.state ∧
-      t.currentChar = b ∧ t.index = s.index ∧
+      t.currentChar = b ∧ t.index = s.index ∧ t.oob = s.oob ∧ (s.cmd.isSome → t.ub = s.ub) ∧
       (commandService D s i).1 =
         (if b == 10 then
           if (D.cmdD t.cmd).onlyTest then ackError D t
@@ -67,7 +67,8 @@ theorem parseCommandArgs_got (D : Desc) (s : St) (i : SvcIn) (b : Byte) (hs : s.
           let t1 := { setB D t .cmd t.length b with length := t.length + 1 }
           if t1.length < D.cmdCap then setB D t1 .cmd t1.length 0 else { t1 with state := .error }) := by
   refine ⟨({ s.emit (.rd (some b)) with currentChar := b } : St).chkUb s.cmd.isSome, by simp [St.emit], by simp [St.emit],
-    by simp [St.emit], by simp [St.emit], by simp [St.emit], by simp [St.emit], by simp [St.emit], ?_⟩
+    by simp [St.emit], by simp [St.emit], by simp [St.emit], by simp [St.emit], by simp [St.emit],
+    (by simp [St.emit, St.chkUb]; split <;> rfl), (by intro h; simp [St.emit, St.chkUb, h]), ?_⟩
   unfold commandService
   simp only [hs]
   unfold parseCommandArgs
@@ -79,7 +80,7 @@ theorem C06_args_byte (D : Desc) (s : St) (i : SvcIn) (args : List Byte) (b : By
     (hq : isTestMark D s b = false) (hinv : ArgsInv D s args) (hroom : s.length + 1 < D.cmdCap) :
     let s' := (commandService D s i).1
     ArgsInv D s' (args ++ [b]) ∧ s'.state = .parseCommandArgs ∧ s'.cmd = s.cmd ∧ s'.cmdType = s.cmdType := by
-  obtain ⟨t, t1, t2, t3, t4, t5, t6, t7, e⟩ := parseCommandArgs_got D s i b hs hr
+  obtain ⟨t, t1, t2, t3, t4, t5, t6, t7, _, _, e⟩ := parseCommandArgs_got D s i b hs hr
   have h1 : s.length < D.capOf .cmd := by show s.length < D.cmdCap; omega
   have h2 : s.length + 1 < D.capOf .cmd := hroom
   have hge : ¬ D.cmdCap ≤ s.length := by omega
@@ -91,7 +92,7 @@ theorem C06_args_overflow (D : Desc) (s : St) (i : SvcIn) (b : Byte)
     (hs : s.state = .parseCommandArgs) (hr : i.rd = some b) (h10 : b ≠ 10) (h13 : b ≠ 13)
     (hq : isTestMark D s b = false) (hroom : ¬ s.length + 1 < D.cmdCap) :
     (commandService D s i).1.state = .error := by
-  obtain ⟨t, t1, t2, t3, t4, t5, t6, t7, e⟩ := parseCommandArgs_got D s i b hs hr
+  obtain ⟨t, t1, t2, t3, t4, t5, t6, t7, _, _, e⟩ := parseCommandArgs_got D s i b hs hr
   simp only [e]
   simp [h10, h13, hq, t2, hroom]
   split <;> rfl
@@ -100,7 +101,7 @@ theorem C06_args_cr (D : Desc) (s : St) (i : SvcIn) (args : List Byte)
     (hs : s.state = .parseCommandArgs) (hr : i.rd = some 13) (hinv : ArgsInv D s args) :
     ArgsInv D (commandService D s i).1 args ∧ (commandService D s i).1.state = .parseCommandArgs ∧
     (commandService D s i).1.cmd = s.cmd := by
-  obtain ⟨t, t1, t2, t3, t4, t5, t6, t7, e⟩ := parseCommandArgs_got D s i 13 hs hr
+  obtain ⟨t, t1, t2, t3, t4, t5, t6, t7, _, _, e⟩ := parseCommandArgs_got D s i 13 hs hr
   simp only [e, ArgsInv]
   simp [t1, t2, t3, t5, hs]
   exact hinv
@@ -110,7 +111,7 @@ theorem C06_args_lf (D : Desc) (s : St) (i : SvcIn) (args : List Byte)
     let s' := (commandService D s i).1
     (∃ t, s' = ackError D t) ∨
     (ArgsInv D s' args ∧ s'.cmd = s.cmd ∧ s'.index = 0 ∧ (s'.state = .parseWriteArgs ∨ s'.state = .writeLoop)) := by
-  obtain ⟨t, t1, t2, t3, t4, t5, t6, t7, e⟩ := parseCommandArgs_got D s i 10 hs hr
+  obtain ⟨t, t1, t2, t3, t4, t5, t6, t7, _, _, e⟩ := parseCommandArgs_got D s i 10 hs hr
   have hi : ArgsInv D t args := by unfold ArgsInv; rw [t1, t2]; exact hinv
   simp only [e]
   simp only [beq_self_eq_true, if_true]
